@@ -141,6 +141,30 @@ static long vnow(void)
   if (r > 0) { b[r] = 0; v = atol(b); }
   return v;
 }
+/* st_ctime cannot be set: translate the kernel's (real) change time into the virtual time that was current then.  The
+ * controller appends "<sec> <nsec> <virtual>" to <clockfile>.hist each time it sets the clock (sec/nsec = kernel time stamp
+ * of that write, taken one tick after everything else has stopped). */
+static void virtual_ctime(struct stat *st)
+{
+  static char hb[262144]; char hp[4200]; int fd; ssize_t r, n = 0; char *p, *e; long best = -1, first = -1;
+  if (!clockfile) return;
+  snprintf(hp, sizeof hp, "%s.hist", clockfile);
+  fd = r_open(hp, O_RDONLY);
+  if (fd == -1) return;
+  while (n < (ssize_t) sizeof hb - 1 && (r = r_read(fd, hb + n, sizeof hb - 1 - n)) > 0) n += r;
+  r_close(fd);
+  hb[n] = 0;
+  for (p = hb; *p; p = e ? e + 1 : p + strlen(p)) {
+    long sec, nsec, v;
+    e = strchr(p, '\n');
+    if (sscanf(p, "%ld %ld %ld", &sec, &nsec, &v) != 3) { if (!e) break; continue; }
+    if (first < 0) first = v;
+    if (sec < st->st_ctim.tv_sec || (sec == st->st_ctim.tv_sec && nsec <= st->st_ctim.tv_nsec)) best = v;
+    if (!e) break;
+  }
+  if (best < 0) best = first;
+  if (best >= 0) { st->st_ctim.tv_sec = best; st->st_ctim.tv_nsec = 0; }
+}
 static void stamp_fd(int fd)
 {
   long v; struct timespec ts[2];
@@ -421,9 +445,10 @@ static int do_stat(const char *call, const char *path, struct stat *st, int (*fn
   d = decide(&wj, &sn);
   if (d > 0) { r = -1; errno = d; } else r = fn(path, st);
   e = errno;
+  if (r == 0) virtual_ctime(st);
   ev_begin(&j, call); jb_kv_s(&j, "path", abs); jb_kv_i(&j, "res", r); jb_kv_i(&j, "e", r == -1 ? e : 0);
   if (r == 0) { jb_kv_i(&j, "ino", st->st_ino); jb_kv_i(&j, "size", st->st_size); jb_kv_i(&j, "mtime", st->st_mtime);
-                jb_kv_i(&j, "atime", st->st_atime); jb_kv_i(&j, "mode", st->st_mode); jb_kv_i(&j, "uid", st->st_uid); }
+                jb_kv_i(&j, "atime", st->st_atime); jb_kv_i(&j, "ctime", st->st_ctime); jb_kv_i(&j, "mode", st->st_mode); jb_kv_i(&j, "uid", st->st_uid); }
   if (d) jb_kv_i(&j, "inj", 1);
   ev_end(&j); errno = e; busy = 0;
   return r;
